@@ -23,8 +23,7 @@ Rendering of the imperative code:
 Operator typing on dynamic operands is the FIXED one (D-09e, commit b1ccf31: `add` with a dynamic
 operand is dynamic unless an operand is a string; `not`/`minus` on a dynamic operand are typed).
 Quirks reproduced as they are (DESIGN §6): return types are inferred at block entry in the
-*enclosing* variable scopes (D-09b); literal argument types of most methods are not checked
-(D-09c); `x get e` is never checked against the declared type of `x`.  D-09a is FIXED in the code
+*enclosing* variable scopes (D-09b); `x get e` is never checked against the declared type of `x`.  D-09a is FIXED in the code
 (`in_loop` is 0 while a function body is checked), and so is D-18: `localsLen` is the span
 `last own id − start + 1` (`spanLen := true`; `false` gives the count of the originally pinned code).
 Core-only.
@@ -45,6 +44,8 @@ inductive Rule where
   -- typing rules
   | tyBinary | tyUnary | tyCond | tyIndexBase | tyIndexIdx | tyCommandArg | tyMethodArg
   | tyMutReceiver | methodUnknown | arityMethod
+  -- shapes without a run-time meaning (fix D-09c)
+  | bareMember | badCallee | badIndexRoot
 deriving DecidableEq, Repr, Inhabited
 
 /-- The `SemanticError` the site passes. -/
@@ -56,7 +57,7 @@ def Rule.kind : Rule → DiagKind
   | .arityUser | .arityGlobal | .arityMethod => .functionCallArity
   | .breakOutside | .continueOutside | .returnOutside => .unreachableCode
   | .tyBinary | .tyUnary | .tyCond | .tyIndexBase | .tyIndexIdx | .tyCommandArg | .tyMethodArg
-  | .tyMutReceiver => .typeMismatch
+  | .tyMutReceiver | .bareMember | .badCallee | .badIndexRoot => .typeMismatch
 
 /-- The scoping fragment of the static rules (everything that does not depend on static types). -/
 def Rule.isScoping : Rule → Bool
@@ -343,6 +344,13 @@ def exprRootLocal (env : Env) (cur : Scope) : Expr → Option Nat
   | .member o _ _ _ => exprRootLocal env cur o
   | _ => none
 
+/-- `is_variable_rooted`: an index / member chain that starts at a variable. -/
+def isVarRooted : Expr → Bool
+  | .var _ _ _ => true
+  | .index a _ _ _ => isVarRooted a
+  | .member o _ _ _ => isVarRooted o
+  | _ => false
+
 /-! ### `check_expr` -/
 
 structure Out (α : Type) where
@@ -367,6 +375,19 @@ def checkSegs (env : Env) (cur : Scope) (sid : Nat) (span : Span) : List Seg →
 
 def errIf (bad : Bool) (d : RDiag) : List RDiag := if bad then [d] else []
 
+/-- `expect_member_string_arg` / `expect_member_number_arg` on the arguments the code looks at. -/
+def argDiags (env : Env) (cur : Scope) (ck : ArgCheck) (args : List Expr) (mspan : Span) : List RDiag :=
+  match ck with
+  | .none => []
+  | .string0 => ((args.take 1).map fun a => errIf (!stringArgOk (inferExpr env cur a)) (RDiag.at .tyMethodArg mspan)).flatten
+  | .string0If2 =>
+      if args.length ≥ 2 then
+        ((args.take 1).map fun a => errIf (!stringArgOk (inferExpr env cur a)) (RDiag.at .tyMethodArg mspan)).flatten
+      else []
+  | .number0 => ((args.take 1).map fun a => errIf (!numberArgOk (inferExpr env cur a)) (RDiag.at .tyMethodArg mspan)).flatten
+  | .strings2 => ((args.take 2).map fun a => errIf (!stringArgOk (inferExpr env cur a)) (RDiag.at .tyMethodArg mspan)).flatten
+  | .numbers2 => ((args.take 2).map fun a => errIf (!numberArgOk (inferExpr env cur a)) (RDiag.at .tyMethodArg mspan)).flatten
+
 /-- Checks of a method call whose receiver has the static type `rt` (after the receiver itself
 has been checked): diagnostics and the receiver read/write facts. -/
 def checkMethod (env : Env) (cur : Scope) (sid : Nat) (rt : VType) (obj : Expr) (field : Bytes)
@@ -381,12 +402,7 @@ def checkMethod (env : Env) (cur : Scope) (sid : Nat) (rt : VType) (obj : Expr) 
         else f
       let d1 := errIf (m.mutRecv && root.isNone && m.kind == .processCommand) (RDiag.at .tyMutReceiver mspan)
       let d2 := errIf (args.length != m.arity) (RDiag.at .arityMethod mspan)
-      let d3 := match m.argCheck, args with
-        | .string0, a :: _ => errIf (!stringArgOk (inferExpr env cur a)) (RDiag.at .tyMethodArg mspan)
-        | .string0If2, a :: _ :: _ => errIf (!stringArgOk (inferExpr env cur a)) (RDiag.at .tyMethodArg mspan)
-        | .number0, a :: _ => errIf (!numberArgOk (inferExpr env cur a)) (RDiag.at .tyMethodArg mspan)
-        | _, _ => []
-      (d1 ++ d2 ++ d3, f1)
+      (d1 ++ d2 ++ argDiags env cur m.argCheck args mspan, f1)
   | none => (errIf (rt != .dynamic) (RDiag.at .methodUnknown mspan), f)
 
 mutual
@@ -423,7 +439,8 @@ mutual
         ⟨.unary op r.val s, r.ds ++ errIf (!unaryOk op (inferExpr env cur e)) (RDiag.at .tyUnary s), r.facts⟩
     | .member o fld fs s, f =>
         let r := checkExpr env cur sid o f
-        ⟨.member r.val fld fs s, r.ds, r.facts⟩
+        -- a member access that is not a callee has no meaning (fix D-09c)
+        ⟨.member r.val fld fs s, r.ds ++ [RDiag.at .bareMember s], r.facts⟩
     | .call callee args _ s, f =>
         match callee with
         | .var fname vb vs =>
@@ -455,7 +472,8 @@ mutual
         | c =>
             let rc := checkExpr env cur sid c f
             let ra := checkExprs env cur sid args rc.facts
-            ⟨.call rc.val ra.val none s, rc.ds ++ ra.ds, ra.facts⟩
+            -- only a name or a method can be called (fix D-09c)
+            ⟨.call rc.val ra.val none s, rc.ds ++ [RDiag.at .badCallee s] ++ ra.ds, ra.facts⟩
   def checkExprs (env : Env) (cur : Scope) (sid : Nat) : List Expr → Facts → Out (List Expr)
     | [], f => ⟨[], [], f⟩
     | e :: es, f =>
@@ -601,7 +619,9 @@ mutual
         let f2 := match exprRootLocal env cur.vars t with
           | some id => recReadWrite re.facts env.owner sid id
           | none => re.facts
-        ⟨.assignIndex rt.val re.val (some sid) sp, rt.ds ++ re.ds, joinClass f2 sid .impure, cur⟩
+        -- the target must be rooted in a variable (fix D-09c)
+        ⟨.assignIndex rt.val re.val (some sid) sp,
+         rt.ds ++ re.ds ++ errIf (!isVarRooted t) (RDiag.at .badIndexRoot sp), joinClass f2 sid .impure, cur⟩
     | .ifS c t e _ sp, f0 =>
         let sid := f0.stmtEffects.length
         let f1 := pushStmt f0 env.owner env.scope
